@@ -23,6 +23,13 @@ ASSUMPTIONS = [
     "t1t: in dynamic memory block Fh (bytes 120..127) is lock/reserved and not part of the TLV area whether or not "
     "control TLVs announce it (layouts that use block Fh for TLV data are outside the generated domain)",
     "t1t: well-formed layouts never place control TLVs in static memory (HR0=11h) tags",
+    "t1t: retry classes (C01/C02/C03): a failed attempt is one in which every exchange from some command on is lost "
+    "(TimeoutError at the frontend: the command never reaches the tag, or the tag executes it and the answer is lost) "
+    "until the operation has ended with TagCommandError; the tag then answers again and the application repeats the "
+    "same operation on the same tag / tag.ndef object (a tag that answers selectively within one attempt is C16's domain)",
+    "t1t: C08 non-interference over declared ranges uses the reference reader's reading of the control TLVs in front "
+    "of the NDEF TLV (lock area = ceil(bits/8) bytes, size 0 = 256); it is applied only where that reading is "
+    "unambiguous (no control TLV declares bytes of its own T/L/V field)",
 ]
 
 
@@ -1123,7 +1130,8 @@ RULE_C08 = ("images: random; valid CC + random TLV area; valid layouts with 1-3 
             "elsewhere inside the value, 1- and 3-byte length form, static 120-byte and dynamic 256..2048-byte geometries; "
             "the non-interference oracle inverts, besides blocks Dh/Eh and the bytes behind the data area, every byte "
             "from the NDEF TLV on that the reference reader excludes from the data area (lock bytes = ceil(bits/8), a "
-            "partially used last lock byte included)")
+            "partially used last lock byte included); images in which a control TLV declares bytes of its own T/L/V field "
+            "reserved have no consistent reading and get the basic inversion only")
 REQUIRED_C08 = ["t1t_c08_ctl_inside_cases", "t1t_c08_ctl_inside_lock", "t1t_c08_ctl_inside_mem",
                 "t1t_c08_ctl_inside_lock_bits_below_8", "t1t_c08_ctl_inside_lock_partial_last_byte",
                 "t1t_c08_ctl_inside_lock_whole_bytes", "t1t_c08_ctl_inside_size_0_means_256",
@@ -1465,7 +1473,12 @@ def c08_case(case, R, info=None):
         basic = [a for a in list(range(104, 120)) + list(range(declared, len(image))) if 12 <= a < len(image)]
         ref = TL.ref_read(image, case["hr0"])
         groups = {}
-        if ref.status == "ndef":
+        if ref.status == "ndef" and ref.self_ref:
+            # a control TLV that declares bytes of its own T/L/V field reserved has no consistent reading (with the
+            # range applied its value bytes are other bytes, which declare another range): "the data area" is not
+            # defined by such an image beyond the fixed blocks and the CC size; only the basic part is judged
+            R.count("t1t_c08_noninterference_self_referential_control_tlv_basic_only")
+        elif ref.status == "ndef":
             bset = set(basic)
             for kind, start, nb in ref.ranges:
                 for a in range(max(start, ref.offset), min(start + nb, len(image), declared)):
